@@ -22,6 +22,7 @@ pub mod mem_store {
 }
 pub use crate::scheduler::inner_locustdb::{verif_is_filesystem_safe, verif_subpartition};
 pub use crate::scheduler::InnerLocustDB;
+pub use crate::scheduler::{SharedSender, Task};
 pub mod stringpack {
     pub use crate::stringpack::*;
 }
